@@ -14,8 +14,11 @@
 #include <amgcl/relaxation/ilu0.hpp>
 #include <amgcl/relaxation/chebyshev.hpp>
 #include <amgcl/relaxation/damped_jacobi.hpp>
+#include <amgcl/value_type/static_matrix.hpp>
+#include <amgcl/value_type/complex.hpp>
 #include <omp.h>
 #include <map>
+#include <complex>
 
 using vr::crsd;
 typedef amgcl::backend::builtin<double> B;
@@ -211,6 +214,51 @@ static void hierarchy_case(const char *cname, const char *rname, std::shared_ptr
     }
 }
 
+
+// ------------------------------------------------------------------ complex / block valued levels
+// The coarsening classes are called directly on complex and 2x2 block valued matrices; every
+// (A, P, R, Ac) is judged on the harness' own real scalar expansion (a+bi -> [[a,-b],[b,a]], block ->
+// its entries): R = P^H / P^T blockwise is exactly "expansion(R) = expansion(P)^T", Ac = R A P likewise.
+typedef amgcl::static_matrix<double, 2, 2> BV2;
+template <class V> struct expander;
+template <> struct expander<std::complex<double>> {
+    static const int W = 2;
+    static double at(const std::complex<double> &v, int r, int c) { return r == c ? v.real() : (r == 0 ? -v.imag() : v.imag()); }
+};
+template <> struct expander<BV2> { static const int W = 2; static double at(const BV2 &v, int r, int c) { return v(r, c); } };
+template <class V>
+static std::shared_ptr<crsd> expand_any(const amgcl::backend::crs<V, ptrdiff_t, ptrdiff_t> &A) {
+    const int W = expander<V>::W;
+    std::vector<std::vector<std::pair<int,double>>> rows(A.nrows * W);
+    for (size_t i = 0; i < A.nrows; ++i) for (ptrdiff_t p = A.ptr[i]; p < A.ptr[i+1]; ++p)
+        for (int r = 0; r < W; ++r) for (int c = 0; c < W; ++c) rows[i * W + r].push_back(std::make_pair((int)(A.col[p] * W + c), expander<V>::at(A.val[p], r, c)));
+    return vr::from_rows(A.nrows * W, A.ncols * W, rows);
+}
+static std::complex<double> mk_val(vr::rng &g, double re, std::complex<double>*) { return std::complex<double>(re, re * (0.2 + 0.6 * g.unit()) * (g.coin() ? 1 : -1)); }
+static BV2 mk_val(vr::rng &g, double re, BV2*) { BV2 v; v(0,0) = re; v(1,1) = re * (0.6 + 0.3 * g.unit()); v(0,1) = 0.3 * re * g.unit(); v(1,0) = -0.2 * re * g.unit(); return v; }
+
+template <class V, template <class> class C>
+static void valued_case(const char *cname, const char *vname, std::shared_ptr<crsd> As, vr::rng &g, bool adjoint, double over_interp) {
+    typedef amgcl::backend::builtin<V> VB; typedef amgcl::backend::crs<V, ptrdiff_t, ptrdiff_t> VM;
+    auto A = std::make_shared<VM>(); A->set_size(As->nrows, As->ncols, true);
+    for (size_t i = 0; i < As->nrows; ++i) A->ptr[i+1] = As->ptr[i+1] - As->ptr[i];
+    A->set_nonzeros(A->scan_row_sizes());
+    for (ptrdiff_t p = 0; p < As->ptr[As->nrows]; ++p) { A->col[p] = As->col[p]; A->val[p] = mk_val(g, As->val[p], (V*)0); }
+    C<VB> c((typename C<VB>::params()));
+    std::shared_ptr<VM> cur = A;
+    for (int lvl = 0; lvl < 3 && cur->nrows > 4; ++lvl) {
+        std::shared_ptr<VM> P, R, Ac;
+        try { std::tie(P, R) = c.transfer_operators(*cur); amgcl::backend::sort_rows(*P); amgcl::backend::sort_rows(*R);   // as amg::level::step_down does
+              Ac = c.coarse_operator(*cur, *P, *R); amgcl::backend::sort_rows(*Ac); }
+        catch (amgcl::error::empty_level) { break; }
+        catch (const std::exception &e) { vr::obj o; o.str("e", "Exception").str("what", e.what()).str("coarsening", cname); vr::emit(o.done()); break; }
+        seen s; s.A = expand_any(*cur); s.P = expand_any(*P); s.R = expand_any(*R); s.Ac = expand_any(*Ac);
+        std::string tag = std::string("valued-") + vname;
+        emit_level(cname, lvl, s, false, adjoint, over_interp, tag.c_str());
+        cur = Ac;
+    }
+}
+
 template <template <class> class Rx>
 static void all_coarsenings(const char *rname, std::shared_ptr<crsd> A, const cfg &c, const char *tag, vr::rng &g, int rb, int which) {
     if (which & 1) hierarchy_case<amgcl::coarsening::aggregation, Rx>("aggregation", rname, A, c, true, true, tag, g, rb);
@@ -248,6 +296,15 @@ int main(int argc, char **argv) {
             double oi = (r % 3 == 0) ? 1.0 : (r % 3 == 1 ? 2.0 : 1.5);
             cfg c{(unsigned)g.range(1, 6), (unsigned)g.range(2, 5), g.coin(), true, 1, 1, 1, oi};
             all_coarsenings<amgcl::relaxation::spai0>("spai0", A, c, "galerkin", g, 0, 15);
+        }
+        // complex (non-Hermitian) and 2x2 block valued (non-commuting blocks) matrices through the coarsenings
+        int vreps = th ? 16 : 6;
+        for (int r = 0; r < vreps; ++r) {
+            auto As = r % 2 ? vr::random_mmatrix(g, g.range(20, 60), 0.08, 3, 1) : vr::poisson2d(g.range(4, 8), g.range(3, 7));
+            valued_case<std::complex<double>, amgcl::coarsening::smoothed_aggregation>("smoothed_aggregation", "complex", As, g, true, 0.0);
+            valued_case<std::complex<double>, amgcl::coarsening::aggregation>("aggregation", "complex", As, g, true, 1.5);
+            valued_case<BV2, amgcl::coarsening::smoothed_aggregation>("smoothed_aggregation", "block2", As, g, true, 0.0);
+            valued_case<BV2, amgcl::coarsening::aggregation>("aggregation", "block2", As, g, true, 2.0);
         }
     } else if (mode == "rebuild") {
         int reps = th ? 10 : 3;
